@@ -227,3 +227,111 @@ def gen_list(r, depth=0, feats=None, maxn=3):
     feats = feats or {}
     n = r.choice([1, 1, 1, 2, 3][:maxn + 2])
     return ', '.join(gen_complex(r, depth, feats) for _ in range(n))
+
+
+# ---------------------------------------------------------------------------------------------
+# HTML state documents: forms, controls, fieldsets/legends, radio groups, dir, iframes
+# ---------------------------------------------------------------------------------------------
+INPUT_TYPES = ['text', 'checkbox', 'radio', 'submit', 'hidden', 'number', 'range', 'date', 'month', 'week', 'time',
+               'datetime-local', 'search', 'url', 'tel', 'email', 'password', 'TEXT', 'Radio', 'x', '']
+RTL = 'אב'
+BIDI_TEXTS = ['abc', RTL, '123', ' ', '', '12' + RTL, RTL + 'abc', 'ab' + RTL, '!?']
+
+
+def gen_control(r):
+    x = r.random()
+    attrs = []
+
+    def maybe(name, vals, p):
+        if r.random() < p:
+            attrs.append((name, r.choice(vals)))
+    if x < 0.45:
+        name = 'input'
+        maybe('type', INPUT_TYPES, 0.85)
+        maybe('name', ['g1', 'g2', '', 'g1'], 0.6)
+        maybe('checked', ['', 'checked'], 0.3)
+        maybe('value', ['', 'a', '5', RTL, '2020-01-01', '12:00'], 0.4)
+        maybe('min', ['1', '2020-01-01', 'x', '10:00'], 0.25)
+        maybe('max', ['9', '2021-01-01', '08:00'], 0.25)
+        maybe('placeholder', ['', 'p'], 0.3)
+        maybe('indeterminate', [''], 0.1)
+        kids = []
+    elif x < 0.55:
+        name = 'button'
+        maybe('type', ['submit', 'button', 'reset', 'SUBMIT'], 0.7)
+        kids = [('t', 'ok')]
+    elif x < 0.65:
+        name = 'textarea'
+        maybe('placeholder', ['', 'p'], 0.5)
+        kids = [('t', r.choice(['', '\n', 'x', RTL, ' ']))] if r.random() < 0.6 else []
+    elif x < 0.75:
+        name = 'select'
+        kids = []
+        for _ in range(r.randint(0, 3)):
+            o = ('e', 'option', None, None, [('selected', '')] if r.random() < 0.3 else [], [('t', 'o')])
+            if r.random() < 0.3:
+                og = [('disabled', '')] if r.random() < 0.5 else []
+                o = ('e', 'optgroup', None, None, og, [o])
+            kids.append(o)
+    elif x < 0.8:
+        name = 'progress'
+        maybe('value', ['1', ''], 0.5)
+        kids = []
+    elif x < 0.88:
+        name = r.choice(['a', 'area'])
+        maybe('href', ['', '#x'], 0.7)
+        kids = [('t', 'l')]
+    else:
+        name = r.choice(['div', 'span', 'p', 'bdi', 'my-el'])
+        maybe('contenteditable', ['', 'true', 'TRUE', 'false', 'x'], 0.4)
+        kids = [('t', r.choice(BIDI_TEXTS))] if r.random() < 0.7 else []
+    maybe('disabled', ['', 'disabled'], 0.2)
+    maybe('readonly', [''], 0.15)
+    maybe('required', [''], 0.2)
+    maybe('dir', ['ltr', 'rtl', 'auto', 'AUTO', 'x', ''], 0.25)
+    r.shuffle(attrs)
+    return ('e', name, None, None, attrs, kids)
+
+
+def gen_form_tree(r, depth=0):
+    kids = []
+    for _ in range(r.randint(1, 5)):
+        x = r.random()
+        if x < 0.5 or depth >= 3:
+            kids.append(gen_control(r))
+        elif x < 0.62:
+            fs_attrs = [('disabled', '')] if r.random() < 0.6 else []
+            fk = []
+            for _ in range(r.randint(0, 2)):
+                fk.append(('e', 'legend', None, None, [], [gen_control(r)] if r.random() < 0.7 else [('t', 'L')]))
+            sub = gen_form_tree(r, depth + 1)
+            fk += sub[5]
+            r.shuffle(fk)
+            kids.append(('e', 'fieldset', None, None, fs_attrs, fk))
+        elif x < 0.72:
+            kids.append(('e', 'form', None, None, [], gen_form_tree(r, depth + 1)[5]))
+        elif x < 0.8:
+            inner = ('e', 'html', None, None, [], [('e', 'body', None, None, [('dir', r.choice(['rtl', 'ltr']))] if r.random() < 0.5 else [],
+                                                   gen_form_tree(r, depth + 1)[5])])
+            kids.append(('e', 'iframe', None, None, [], [inner]))
+        elif x < 0.9:
+            kids.append(('t', r.choice(BIDI_TEXTS)))
+        else:
+            sub = gen_form_tree(r, depth + 1)
+            d = [('dir', r.choice(['ltr', 'rtl', 'auto']))] if r.random() < 0.5 else []
+            kids.append(('e', 'div', None, None, d, sub[5]))
+    return ('e', 'div', None, None, [], kids)
+
+
+def gen_state_doc(r):
+    kind = r.choice(['html', 'html', 'html5', 'xhtml', 'xml'])
+    body_attrs = [('dir', r.choice(['ltr', 'rtl', 'auto']))] if r.random() < 0.3 else []
+    body = ('e', 'body', None, None, body_attrs, [gen_form_tree(r)])
+    head = ('e', 'head', None, None, [], [])
+    html_attrs = [('dir', r.choice(['ltr', 'rtl', 'auto', 'x']))] if r.random() < 0.3 else []
+    if r.random() < 0.3:
+        html_attrs.append(('lang', r.choice(['en', 'de', ''])))
+    top = [('e', 'html', None, None, html_attrs, [head, body])]
+    if r.random() < 0.15:
+        top = [gen_form_tree(r)]      # no html/body wrapper
+    return kind, top
